@@ -282,6 +282,8 @@ STD_PATHS = {"Vec": "std::vec::Vec", "Option": "std::option::Option", "Result": 
              "BTreeMap": "std::collections::BTreeMap", "HashSet": "std::collections::HashSet", "BTreeSet": "std::collections::BTreeSet",
              "String": "std::string::String"}
 SPELLINGS = ("std", "project", "both")
+# module paths in front of a project type: a path names the type by its last segment, whatever the segments before it look like
+PROJECT_PREFIXES = ("crate::", "self::", "crate::app_models::", "super::ui_state::v2::", "crate::db_2::", "self::__internal::")
 
 
 def qualify(text, spelling, project_names=()):
@@ -295,7 +297,7 @@ def qualify(text, spelling, project_names=()):
         text = re.sub(r"(?<![A-Za-z0-9_:])String(?![A-Za-z0-9_])", STD_PATHS["String"], text)
     if spelling in ("project", "both"):
         for k, nm in enumerate(sorted(project_names, key=len, reverse=True)):
-            text = re.sub(r"(?<![A-Za-z0-9_:])%s(?![A-Za-z0-9_])" % re.escape(nm), ("crate::" if k % 2 == 0 else "self::") + nm, text)
+            text = re.sub(r"(?<![A-Za-z0-9_:])%s(?![A-Za-z0-9_])" % re.escape(nm), PROJECT_PREFIXES[k % len(PROJECT_PREFIXES)] + nm, text)
     return text
 
 
